@@ -23,21 +23,27 @@ H, W = 64, 96
 EDGES = [(0, 1), (1, 2)]
 
 
-def scene(rng, single):
-    """4 frames with 0,1,2,3 animals (single-instance: 1 animal each, one of them with all nodes missing) in 2 videos."""
+H2, W2 = 48, 64
+
+
+def scene(rng, single, mixed=False):
+    """4 frames with 0,1,2,3 animals (single-instance: 1 animal each, one of them with all nodes missing) in 2 videos.
+    mixed: the frames of video 1 are smaller (48x64) and every frame is size-matched to (64, 96), so frames of one batch
+    carry different effective scales."""
     frames = []
     for f in range(4):
         animals = []
         n_an = (1 if f else 0) if single else f
+        small = mixed and f // 2 == 1
         for a in range(n_an):
-            cx = 14 + a * 30 + rng.uniform(-2, 2)
-            cy = 14 + ((f * 13 + a * 7) % 32) + rng.uniform(-2, 2)
+            cx = (10 + a * 19 if small else 14 + a * 30) + rng.uniform(-2, 2)
+            cy = 12 + ((f * 13 + a * 7) % (24 if small else 32)) + rng.uniform(-2, 2)
             pts = np.array([[cx, cy], [cx + 7 + rng.uniform(-1, 1), cy + 1], [cx + 9, cy + 8 + rng.uniform(-1, 1)]])
             pts = np.round(pts * 4) / 4.0
             if rng.random() < 0.3:
                 pts[2] = np.nan
             animals.append(pts)
-        frames.append(dict(hw=(H, W), animals=animals, video=f // 2))
+        frames.append(dict(hw=((H2, W2) if small else (H, W)), animals=animals, video=f // 2))
     return frames
 
 
@@ -45,10 +51,10 @@ def build(model, frames, k, refine, batch):
     from harness import inferplane as ip
 
     if model == "single":
-        return ip.build_single(dict(scale=1.0, max_stride=8, stride=2, refine=refine, batch=batch), frames, 3)[0]
+        return ip.build_single(dict(scale=1.0, max_stride=8, stride=2, refine=refine, batch=batch, max_h=H, max_w=W), frames, 3)[0]
     if model == "topdown":
-        return ip.build_topdown(dict(scale=1.0, cscale=1.0, max_stride=8, stride=2, cstride=2, crop=32, anchor=0, refine=refine, batch=batch), frames, 3, max_instances=(k or None))[0]
-    return ip.build_bottomup(dict(scale=1.0, max_stride=8, stride=2, pstride=2, refine=refine, batch=batch), frames, 3, EDGES, max_instances=(k or None))[0]
+        return ip.build_topdown(dict(scale=1.0, cscale=1.0, max_stride=8, stride=2, cstride=2, crop=32, anchor=0, refine=refine, batch=batch, max_h=H, max_w=W), frames, 3, max_instances=(k or None))[0]
+    return ip.build_bottomup(dict(scale=1.0, max_stride=8, stride=2, pstride=2, refine=refine, batch=batch, max_h=H, max_w=W), frames, 3, EDGES, max_instances=(k or None))[0]
 
 
 def run_batch(model, src, frames, batch, k, refine):
@@ -126,12 +132,13 @@ def run(tier, seed, only=None):
         if only and (model, k, refine) != tuple(only["combo"]):
             continue
         srng = random.Random(seed * 31 + ci)
-        frames = scene(srng, model == "single")
+        mixed = ci % 2 == 1           # every second combination: two videos of different frame sizes, size-matched
+        frames = scene(srng, model == "single", mixed)
         src = ip.make_source(frames, 3, EDGES)
         # make_source puts everything in one video; rebuild with 2 videos so that video_idx matters
         from harness.labels_util import make_labels
         from harness.idealnet import frame_image
-        fl = [dict(image=frame_image(H, W, fid), instances=(fr["animals"] if fr["animals"] else [np.full((3, 2), np.nan)]), video=fr["video"]) for fid, fr in enumerate(frames)]
+        fl = [dict(image=frame_image(fr["hw"][0], fr["hw"][1], fid), instances=(fr["animals"] if fr["animals"] else [np.full((3, 2), np.nan)]), video=fr["video"]) for fid, fr in enumerate(frames)]
         src = make_labels(fl, n_nodes=3, edges=EDGES)
         cl = Classes()
 
